@@ -15,6 +15,15 @@ add("C20",
     TRUST + "Not modelled: pint unit algebra (unit strings compared as data); N-D -> rows reshaping done by the harness with numpy.",
     "Coq proof over Q (field/lra) + vm_compute correspondence on real outputs", "DESIGN.md §5 C20")
 
+add("C01",
+    "Theorems over all inputs of the Gallina model of calculate_capture/integral: entry (i,j) = integral of signal i x filter j for every shape "
+    "(incl. batch axis), locality, linearity in signals and in filters for trapezoid/explicit-domain/plain-sum rules, scalar step = explicit grid, "
+    "plain sum = trapezoid + end-point term, helper rule; model tied to dreye.calculate_capture, dreye.integral and ReceptorEstimator.capture by "
+    "kernel-evaluated agreement on seeded cases of all rank combinations.",
+    TRUST + "Not modelled: numpy broadcasting and float summation (absorbed by rtol 1e-12 on exact dyadic inputs, 1e-9 on arbitrary doubles); "
+    "length-1 broadcasting along the domain axis and domain/array length mismatches are outside the generator.",
+    "Coq proof over Q (induction on lists, ring/field) + vm_compute correspondence on real outputs", "DESIGN.md §5 C01")
+
 NOT_APPLICABLE = []
 ALL = ["C%02d" % i for i in range(1, 21)]
 
